@@ -323,10 +323,15 @@ class Gen:
         if src is None:
             return False
         n = self.rng.randint(1, 3)
-        self.steps.append({'op': 'zeros', 'shape': [n], 'like': src})
-        buf = self.new((n,), (0.0, 0.0), buf=True)
-        lo, hi = 0.0, 0.0
+        fill = self.rng.choice(['zeros', 'zeros', 'ones'])
+        self.steps.append({'op': fill, 'shape': [n], 'like': src})
+        f0 = 1.0 if fill == 'ones' else 0.0
+        buf = self.new((n,), (f0, f0), buf=True)
+        lo, hi = f0, f0
+        views = []          # views of the buffer: their value changes with later writes, so their interval is the hull
         writes = list(range(n))
+        if fill == 'ones' and n > 1:
+            writes = writes[:self.rng.randint(0, n - 1)]      # some entries keep the constant 1
         if self.rng.random() < 0.5:
             writes.append(self.rng.randrange(n))        # overwrite one entry
         for k in writes:
@@ -348,8 +353,31 @@ class Gen:
             if self.rng.random() < 0.3:
                 # read the entry back (a view of the buffer) and use it
                 self.steps.append({'op': 'getitem', 'a': buf, 'idx': [k], 'bare': True})
-                self.new((), (lo, hi), view=True)
+                views.append(self.new((), (lo, hi), view=True))
         self.vars[buf]['iv'] = (lo, hi)
+        # in-place accumulation: buf[k] = buf[k] * w (the old entry is read through a view, used non-linearly and then
+        # overwritten; the same entry may be updated twice)
+        for _ in range(self.rng.choice([0, 0, 1, 2])):
+            k = self.rng.randrange(n)
+            w = self.pick(lambda u: (int(np.prod(u['shape'])) == 1 or u['shape'] == ()) and max(abs(u['iv'][0]), abs(u['iv'][1])) <= 3
+                          and not any(u is self.vars[g_] for g_ in views) and u is not self.vars[buf])
+            if w is None or max(abs(lo), abs(hi)) > 6:
+                break
+            self.steps.append({'op': 'getitem', 'a': buf, 'idx': [k], 'bare': self.rng.random() < 0.5})
+            g = self.new((), (lo, hi), view=True)
+            views.append(g)
+            ws = self.vars[w]['shape']
+            if ws != ():
+                self.steps.append({'op': 'sum', 'a': w, 'axis': None})
+                w = self.new((), self.vars[w]['iv'])
+            iv = _imul((lo, hi), self.vars[w]['iv'])
+            self.steps.append({'op': 'bin', 'fn': 'mul', 'a': g, 'b': w})
+            m = self.new((), iv)
+            self.steps.append({'op': 'setitem', 'buf': buf, 'idx': [k], 'val': m})
+            lo, hi = min(lo, iv[0]), max(hi, iv[1])
+            self.vars[buf]['iv'] = (lo, hi)
+        for g in views:
+            self.vars[g]['iv'] = (lo, hi)
         return True
 
     def s_linalg(self):
@@ -492,6 +520,8 @@ def run_program(prog, inputs):
             vals.append(algopy.outer(vals[st['a']], vals[st['b']]))
         elif op == 'zeros':
             vals.append(algopy.zeros(tuple(st['shape']), dtype=vals[st['like']]))
+        elif op == 'ones':
+            vals.append(algopy.ones(tuple(st['shape']), dtype=vals[st['like']]))
         elif op == 'setitem':
             idx = tuple(st['idx'])
             vals[st['buf']][idx[0] if len(idx) == 1 else idx] = vals[st['val']]
